@@ -55,16 +55,16 @@ CHECKS = {
         'technique': 'Verus loop invariant against a recursive first_live spec over the rotation queue',
     },
     'C14': {
-        'text': 'Cancellation safety is put back as explicit obligations after dropping .await: at every former suspension point of REQ, REP, ROUTER, DEALER and PULL recv Verus proves the protocol-state fields equal their entry values and every queue item consumed so far has been completely dealt with (skipped by design, or failed and forgotten), so a dropped future owns nothing.',
+        'text': 'Cancellation safety is put back as explicit obligations after dropping .await: at every former suspension point of REQ, REP, ROUTER, DEALER, PULL, SUB and XPUB recv Verus proves the protocol-state fields equal their entry values and every queue item consumed so far has been completely dealt with (skipped by design, or failed and forgotten), so a dropped future owns nothing.',
         'design_ref': 'DESIGN.md 4 (C14)',
-        'note': 'Cancel-safety of FramedRead::next / scc get_async is assumed. FairQueue::poll_next itself is under contract in sequential scope (on Pending the current waker is registered; streams are put back unless ended; items carry the key of their stream); wake-ups from other threads are not modelled. SUB/XPUB recv and proxy() not covered.',
+        'note': 'Cancel-safety of FramedRead::next / scc get_async is assumed. FairQueue::poll_next itself is under contract in sequential scope (on Pending the current waker is registered; streams are put back unless ended; items carry the key of their stream); wake-ups from other threads are not modelled. proxy() itself (select! expansion) not covered.',
         'technique': 'Verus await-point invariants spliced before each former .await of the extracted recv functions',
     },
     'C11': {
         'text': 'Verus proves, on the real text of PubSocket::send and XPubSocket::send: for every subscriber still registered afterwards, its subscription list is untouched and its connection\'s writer was handed the message exactly once if some subscription is a byte-prefix of the first frame (the empty subscription matches everything) and not at all otherwise - also when several subscriptions match. '
-                'The bookkeeping is proved on message_received of both sockets: a one-frame 0x01 message appends its topic, a one-frame 0x00 message removes exactly the first equal topic (nothing if there is none), anything else changes nothing, and only the sender\'s entry can change.',
+                'The bookkeeping is proved on message_received of both sockets: a one-frame 0x01 message appends its topic, a one-frame 0x00 message removes exactly the first equal topic (nothing if there is none), anything else changes nothing, and only the sender\'s entry can change. XPubSocket::recv is proved to return the first message item the queue yields verbatim and to apply exactly that item to the sender\'s entry.',
         'design_ref': 'DESIGN.md 10.2f',
-        'note': 'Sequential scope. The scc traversal is an assumed cursor model (visits every key once; entry changes are table changes); try_send through Pin is an assumed expression ("handed to the writer", drops at the high-water mark are C12); position(closure) in message_received is an assumed expression. Not covered: per-connection ordering of subscription processing against concurrent sends, XPUB returning subscription messages to the application.',
+        'note': 'Sequential scope. The scc traversal is an assumed cursor model (visits every key once; entry changes are table changes); try_send through Pin is an assumed expression ("handed to the writer", drops at the high-water mark are C12); position(closure) in message_received is an assumed expression. Not covered: per-connection ordering of subscription processing against concurrent sends.',
         'technique': 'Verus contracts with a prophecy-chained cursor stand-in for the scc traversal; slice comparison proved through vstd slice specs',
     },
     'C13': {
